@@ -82,6 +82,7 @@ type Boundary struct {
 	OnDone func(ev Event)
 
 	inflight int64
+	inflightBy map[string]*int64 // per instance (see Inflight)
 	// delays: PRNG-free deterministic jitter: every n-th gated call sleeps d (0 = off)
 	JitterEvery int64
 	JitterDur   time.Duration
@@ -188,7 +189,36 @@ func (b *Boundary) Frozen(inst string) bool { b.mu.Lock(); defer b.mu.Unlock(); 
 func (b *Boundary) Parked() int64 { return atomic.LoadInt64(&b.parked) }
 
 // Inflight returns the number of gated calls currently executing.
-func (b *Boundary) Inflight() int64 { return atomic.LoadInt64(&b.inflight) }
+// Inflight is the number of gated calls in flight in instances that are alive. A gated call can be nested in another
+// one (a plugin call inside a resource-manager call): when an instance dies inside the inner call, the outer call
+// never returns; the calls of frozen (dead) instances are therefore not counted.
+func (b *Boundary) Inflight() int64 {
+	n := atomic.LoadInt64(&b.inflight)
+	b.mu.Lock()
+	for inst, dead := range b.frozen {
+		if dead {
+			if c, ok := b.inflightBy[inst]; ok {
+				n -= atomic.LoadInt64(c)
+			}
+		}
+	}
+	b.mu.Unlock()
+	return n
+}
+
+func (b *Boundary) instCounter(inst string) *int64 {
+	b.mu.Lock()
+	defer b.mu.Unlock()
+	if b.inflightBy == nil {
+		b.inflightBy = map[string]*int64{}
+	}
+	c, ok := b.inflightBy[inst]
+	if !ok {
+		c = new(int64)
+		b.inflightBy[inst] = c
+	}
+	return c
+}
 
 // Quiesce runs f while no gated boundary call is in flight and none can start.
 func (b *Boundary) Quiesce(f func()) {
@@ -296,7 +326,9 @@ func (b *Boundary) Call(inst, layer, op, arg string) (done func(err error), inje
 		hook(ev)
 	}
 	b.gate.RLock()
+	ic := b.instCounter(inst)
 	atomic.AddInt64(&b.inflight, 1)
+	atomic.AddInt64(ic, 1)
 	if fire == nil || fire.Kind != "crash" {
 		b.record(ev)
 	}
@@ -307,6 +339,7 @@ func (b *Boundary) Call(inst, layer, op, arg string) (done func(err error), inje
 		}
 		b.record(r)
 		atomic.AddInt64(&b.inflight, -1)
+		atomic.AddInt64(ic, -1)
 		b.gate.RUnlock()
 		if hook := b.OnDone; hook != nil {
 			hook(r)
